@@ -1,2 +1,23 @@
+from replay_common import *
+
+
 def prepare(rp, ce, params):
-    return None, "hashing harness: no native replay written (SHA-256 is uninterpreted in the model)"
+    """the solutions of the model (slot structure, words, addresses) with the REAL SHA-256: the op must find the independently
+    built digest of every solution and must not find a digest with one flipped bit"""
+    m = ce.get("model") or {}
+    nsol = 1 + trace_val(ce, "solutions")
+    fields = dict(kind="vm_pex")
+    for k in range(nsol):
+        tag = f"sol{k}"
+        slots = []
+        for s in range(trace_val(ce, f"{tag}_slots")):
+            slots.append((seq(m, f"{tag}_s{s}_") + [0] * 4)[:trace_val(ce, f"{tag}_s{s}_len")])
+        fields[tag] = "|".join(" ".join(map(str, s)) if s else "e" for s in slots) if slots else "none"
+        fields[f"contract{k}"] = " ".join(str(m.get(f"{tag}_c{i}", 0) & 255) for i in range(32))
+        fields[f"predicate{k}"] = " ".join(str(m.get(f"{tag}_p{i}", 0) & 255) for i in range(32))
+
+    def judge(out):
+        if "panic" in out: return True, "real code panics: " + out["panic"][:200]
+        bad = [f"{k}={v}" for k, v in out.items() if (k.startswith("exists_") and v.strip() != "1") or (k.startswith("flipped_") and v.strip() != "0")]
+        return bool(bad), ("PredicateExists disagrees with the documented pre-image: " + ", ".join(bad)) if bad else "PredicateExists finds exactly the documented digests"
+    return fields, judge
